@@ -131,6 +131,30 @@ def gen_case(rng, tier, with_bad=False):
     return {"uid": uid, "contexts": ctxs, "steps": steps, "dims": dims}
 
 
+def gen_chains(rng):
+    """two chains of different length between the same pair of dimensions, with inconsistent factors:
+    only the shortest one may be used"""
+    uid = next(_counter)
+    dims = rng.sample(list(BASE), 5)
+    s, b, c_, x, t = dims
+    short = [(s, t)] if rng.random() < 0.4 else [(s, b), (b, t)]
+    long_ = [(s, c_), (c_, x), (x, t)] if len(short) == 2 or rng.random() < 0.5 else [(s, c_), (c_, t)]
+    edges = short + long_
+    rng.shuffle(edges)
+    rules = []
+    for a, d in edges:
+        num = Fraction(rng.choice([2, 3, 5, 7, 11, 13]), rng.choice([1, 1, 2]))
+        rules.append({"src": a, "dst": d, "num": frac_s(num), "units": {BASE[d]: 1, BASE[a]: -1}, "params": [], "vexp": 1,
+                      "bidir": False})
+    ctx = {"name": f"ch{uid}", "aliases": [], "defaults": {}, "rules": rules, "redefs": []}
+    steps = [{"f": "enable", "names": [ctx["name"]], "kw": []}]
+    for _ in range(2):
+        steps.append({"f": "convert", "x": frac_s(Fraction(rng.choice([1, 2, 5]))), "src": rng.choice(ALT[s]), "dst": rng.choice(ALT[t])})
+    steps.append({"f": "convert", "x": "1/1", "src": BASE[s], "dst": BASE[x]})
+    steps.append({"f": "disable", "n": None})
+    return {"uid": uid, "contexts": [ctx], "steps": steps, "dims": dims, "chains": [len(short), len(long_)]}
+
+
 def model_ops(case):
     ops = [{"op": "reset"}]
     for c in case["contexts"]:
@@ -260,6 +284,11 @@ class Check(Property):
             c["ops"] = model_ops(c)
             self.bump("scenario")
             self.bump("steps", len(c["steps"]))
+            out.append(c)
+        for _ in range(60 if self.tier == "quick" else 1000):
+            c = gen_chains(rng)
+            c["ops"] = model_ops(c)
+            self.bump("competing chains")
             out.append(c)
         for name, pairs in (("sp", [("nanometer", "terahertz"), ("terahertz", "electron_volt"), ("nanometer", "electron_volt"),
                                     ("reciprocal_centimeter", "nanometer"), ("electron_volt", "reciprocal_centimeter")]),
